@@ -174,9 +174,21 @@ def sensitivity(ids: Optional[List[str]]) -> int:
                 shutil.rmtree(root, ignore_errors=True)
     finally:
         shutil.rmtree(base, ignore_errors=True)
-    summary = {"mutants": len(todo), "caught": sum(1 for r in report if r.get("caught")), "missed": failures,
-               "wall_s": round(time.time() - t0, 1), "report": report}
-    with open(os.path.join(runner.EVIDENCE_DIR, "selftest-sensitivity.json"), "w") as fh:
+    path = os.path.join(runner.EVIDENCE_DIR, "selftest-sensitivity.json")
+    partial = len(todo) < len(mutants.MUTANTS)
+    if partial and os.path.exists(path):
+        # a run over some of the mutants refreshes their entries in the last complete report
+        try:
+            old = json.load(open(path))
+            fresh = {r["mutant"] for r in report}
+            report = [r for r in old.get("report", []) if r.get("mutant") not in fresh] + report
+        except Exception:  # noqa: BLE001
+            pass
+    summary = {"mutants": len(report), "caught": sum(1 for r in report if r.get("caught")),
+               "missed": sum(1 for r in report if not r.get("caught")),
+               "wall_s": round(time.time() - t0, 1), "report": report,
+               "note": ("entries refreshed by a partial run: " + ", ".join(m["id"] for m in todo)) if partial else "complete run"}
+    with open(path, "w") as fh:
         json.dump(summary, fh, indent=1)
-    print(f"[sensitivity] mutants={len(todo)} caught={summary['caught']} missed={failures} wall={summary['wall_s']}s")
+    print(f"[sensitivity] this run: mutants={len(todo)} missed={failures}; report: mutants={summary['mutants']} caught={summary['caught']} missed={summary['missed']} wall={summary['wall_s']}s")
     return 0 if failures == 0 else 1
